@@ -289,6 +289,7 @@ func rulePJSONLiteral(p *Program, r *Reporter) {
 	} else {
 		r.Bad(fn.Pos(), key, "the JSON decoder does not read the result of strings.ReplaceAll(text, \"\\\\`\", \"`\"): literals with several escaped backticks are decoded wrongly or rejected")
 	}
+	decodedValueStores(p, r, fn, name, append(append([]*ssa.Call{}, decode...), unmarshal...))
 	for i, u := range unmarshal {
 		key := fmt.Sprintf("%s Unmarshal#%d", name, i+1)
 		t := ""
@@ -309,6 +310,82 @@ func rulePJSONLiteral(p *Program, r *Reporter) {
 		}
 		if !okIn {
 			r.Bad(instrPos(u), key+" input", "json.Unmarshal does not read the unescaped literal text")
+		}
+	}
+}
+
+// decodedValueStores: every value stored into the Value field of a node built by the JSON literal parser is the target
+// of a decode (or a constant), never the literal's text.
+func decodedValueStores(p *Program, r *Reporter, fn *ssa.Function, name string, decodes []*ssa.Call) {
+	targets := map[*ssa.Alloc]bool{}
+	for _, c := range decodes {
+		a := c.Call.Args[len(c.Call.Args)-1]
+		if mi, ok := a.(*ssa.MakeInterface); ok {
+			a = mi.X
+		}
+		if al, ok := a.(*ssa.Alloc); ok {
+			targets[al] = true
+		}
+	}
+	var fromTarget func(v ssa.Value, seen map[ssa.Value]bool) bool
+	fromTarget = func(v ssa.Value, seen map[ssa.Value]bool) bool {
+		if seen[v] {
+			return true
+		}
+		seen[v] = true
+		switch x := v.(type) {
+		case *ssa.Const:
+			return true
+		case *ssa.UnOp:
+			if al, ok := x.X.(*ssa.Alloc); ok && x.Op == token.MUL {
+				return targets[al]
+			}
+		case *ssa.TypeAssert:
+			return fromTarget(x.X, seen)
+		case *ssa.Extract:
+			if ta, ok := x.Tuple.(*ssa.TypeAssert); ok {
+				return fromTarget(ta.X, seen)
+			}
+			if c, ok := x.Tuple.(*ssa.Call); ok {
+				// the result of a decoder of the repository's own (what it decodes is decided by P-DECODE)
+				if cf := calleeOf(&c.Call); cf != nil && p.IsRepo(cf) {
+					return true
+				}
+			}
+		case *ssa.Call:
+			if cf := calleeOf(&x.Call); cf != nil && p.IsRepo(cf) {
+				return true
+			}
+		case *ssa.ChangeType:
+			return fromTarget(x.X, seen)
+		case *ssa.Phi:
+			for _, e := range x.Edges {
+				if !fromTarget(e, seen) {
+					return false
+				}
+			}
+			return true
+		}
+		return false
+	}
+	n := 0
+	for _, b := range fn.Blocks {
+		for _, in := range b.Instrs {
+			st, ok := in.(*ssa.Store)
+			if !ok {
+				continue
+			}
+			fa, ok := st.Addr.(*ssa.FieldAddr)
+			if !ok || fieldName(fa) != "Value" {
+				continue
+			}
+			n++
+			key := fmt.Sprintf("%s %s.Value#%d", name, typeShort(derefType(fa.X.Type())), n)
+			if fromTarget(st.Val, map[ssa.Value]bool{}) {
+				r.OK(st.Pos(), key, "the node carries a decoded value (the target of a decode, the result of a decoder of the repository, or a constant)")
+			} else {
+				r.Bad(instrPos(st), key, "the node's value is the literal's text itself, not the result of decoding it: escapes and surrounding whitespace would be kept")
+			}
 		}
 	}
 }
